@@ -43,6 +43,11 @@ Nil    == [k |-> "nil"]
 L(q)   == [k |-> "list", v |-> q]                  \* q: sequence of trees
 M(es)  == [k |-> "map", v |-> es]                  \* es: set of entries, keys pairwise different
 E(key, val) == [key |-> key, val |-> val]
+\* The description of one of the SDK's package-level unit sets (UnitDurationNanoseconds, ...), as ONE token:
+\* its multipliers (10^9 * 86400, 2^50) are beyond TLC's integers, and nothing here looks inside it.  The
+\* harness expands the token to the real description and recognises the real description as the token.
+PU(x)  == [k |-> "pkgunits", v |-> x]
+PkgUnitNames == {"nanos", "seconds", "bytes", "chars", "pct"}
 
 Has(m, s) == \E e \in m.v : e.key = S(s)
 Get(m, s) == (CHOOSE e \in m.v : e.key = S(s)).val
@@ -79,6 +84,18 @@ JsonGood  == {"true", "false", "null", "[]", "{}", "\"ab\"", "\"x\""} \cup DOMAI
 QuoteBad  == {"a\"b", "\"ab\"", "\"x\""}
 JsonOK(tok)   == tok \in JsonGood
 QuotedOK(tok) == tok \notin QuoteBad
+
+\* Quantities written as text, by grammar: what the original and the rebuilt schema are fed for a number
+\* with units (the harness adds the spellings it derives from the unit names of the schema at hand).  A unit
+\* set rebuilt from its description is a fresh value with the same contents, so both must read every token
+\* alike - in particular the ones only ANOTHER duration grammar (Go's time.ParseDuration) understands.
+UnitTokenClass ==
+    [both_grammars |-> {"5m30s", "250ms", "10s", "1m", "0s"},
+     sdk_only      |-> {"1H", "2d", "1d2H3m4s", "90 seconds", "1 minute", "1H 30m", "5", "5ns"},
+     go_only       |-> {"1h", "1h30m", "1.5s", "30s5m", "-5s", "1.5h", "+5s", "1us", "1µs", ".5s", "1m1m", "1h0m0.5s", "1e3s"},
+     other_units   |-> {"5kB", "1MB", "2 GB", "1TB1kB", "5B", "5%", "3 chars", "1 char", "1.5MB"},
+     junk          |-> {"5x", "h", "1 h 30", "s5", "--5s", "5m 30"}]
+UnitTokens == UNION {UnitTokenClass[c] : c \in DOMAIN UnitTokenClass}
 
 (* ------------------------------------------------------------------------ *)
 (* the fixed lenient conversions, on atoms                                  *)
@@ -225,7 +242,7 @@ Acc(t, n) ==
       [] t.mt = "map"      -> /\ n.k = "map"
                               /\ Cardinality(n.v) >= t.mmin
                               /\ \A e \in n.v : Acc(t.mk, e.key) /\ Acc(t.mv, e.val)
-      [] t.mt = "obj"      -> ObjAcc(t.mn, n)
+      [] t.mt = "obj"      -> (t.mn = "Units" /\ n.k = "pkgunits" /\ n.v \in PkgUnitNames) \/ ObjAcc(t.mn, n)
       [] t.mt = "oneof"    -> OneAcc(t.mn, n)
 
 (* ------------------------------------------------------------------------ *)
@@ -242,7 +259,7 @@ Norm(t, n) ==
       [] t.mt = "bool"   -> B(BoolOf(n))
       [] t.mt = "list"   -> L([i \in DOMAIN n.v |-> Norm(t.mv, n.v[i])])
       [] t.mt = "map"    -> M({E(Norm(t.mk, e.key), Norm(t.mv, e.val)) : e \in n.v})
-      [] t.mt = "obj"    -> ObjNorm(t.mn, n)
+      [] t.mt = "obj"    -> (IF n.k = "pkgunits" THEN n ELSE ObjNorm(t.mn, n))
       [] t.mt = "oneof"  ->
             LET tid == StrOf(Get(n, "type_id"))
             IN M({E(S("type_id"), S(tid))} \cup ObjNorm(Members(t.mn)[tid], Without(n, "type_id")).v)
@@ -253,7 +270,9 @@ Norm(t, n) ==
 Disp(n, d, i) == [name |-> n, description |-> d, icon |-> i]
 D0 == Disp(None, None, None)
 Unit(ss, sp, ls, lp) == [ss |-> ss, sp |-> sp, ls |-> ls, lp |-> lp]
-Units(base, mults) == [base |-> base, mults |-> mults]          \* mults: set of [m |-> n, unit |-> Unit]
+Units(base, mults) == [pkg |-> "", base |-> base, mults |-> mults]   \* mults: set of [m |-> n, unit |-> Unit]
+\* one of the package-level unit sets, used BY IDENTITY (the variable itself, not a copy of its contents)
+PkgUnits(x) == [pkg |-> x]
 
 TInt(mn, mx, u)    == [kind |-> "int", min |-> mn, max |-> mx, units |-> u]
 TFloat(mn, mx, u)  == [kind |-> "float", min |-> mn, max |-> mx, units |-> u]
@@ -297,8 +316,9 @@ DDisp(d)     == M(OS("name", d.name) \cup OS("description", d.description) \cup 
 OD(o)        == IF o.some THEN {E(S("display"), DDisp(o.v))} ELSE {}
 DUnit(u)     == M({E(S("name_short_singular"), S(u.ss)), E(S("name_short_plural"), S(u.sp)),
                    E(S("name_long_singular"), S(u.ls)), E(S("name_long_plural"), S(u.lp))})
-DUnits(u)    == M({E(S("base_unit"), DUnit(u.base)),
-                   E(S("multipliers"), M({E(N(x.m), DUnit(x.unit)) : x \in u.mults}))})
+DUnits(u)    == IF u.pkg # "" THEN PU(u.pkg)
+                ELSE M({E(S("base_unit"), DUnit(u.base)),
+                        E(S("multipliers"), M({E(N(x.m), DUnit(x.unit)) : x \in u.mults}))})
 OU(o)        == IF o.some THEN {E(S("units"), DUnits(o.v))} ELSE {}
 \* an enum value without display data (nil pointer) is described as an empty display
 DEnumVals(vals) == M({E(x.v, IF x.display.some THEN DDisp(x.display.v) ELSE DDisp(D0)) : x \in vals})
@@ -362,9 +382,10 @@ ToDisp(m)  == Disp(OptS(m, "name"), OptS(m, "description"), OptS(m, "icon"))
 OptD(m)    == IF Has(m, "display") THEN Some(ToDisp(Get(m, "display"))) ELSE None
 ToUnit(m)  == Unit(Get(m, "name_short_singular").v, Get(m, "name_short_plural").v,
                    Get(m, "name_long_singular").v, Get(m, "name_long_plural").v)
-ToUnits(m) == Units(ToUnit(Get(m, "base_unit")),
-                    IF Has(m, "multipliers")
-                    THEN {[m |-> e.key.v, unit |-> ToUnit(e.val)] : e \in Get(m, "multipliers").v} ELSE {})
+ToUnits(m) == IF m.k = "pkgunits" THEN PkgUnits(m.v)
+              ELSE Units(ToUnit(Get(m, "base_unit")),
+                         IF Has(m, "multipliers")
+                         THEN {[m |-> e.key.v, unit |-> ToUnit(e.val)] : e \in Get(m, "multipliers").v} ELSE {})
 OptU(m)    == IF Has(m, "units") THEN Some(ToUnits(Get(m, "units"))) ELSE None
 StrSeq(m, name) == IF Has(m, name) THEN [i \in DOMAIN Get(m, name).v |-> Get(m, name).v[i].v] ELSE <<>>
 BoolFld(m, name) == IF Has(m, name) THEN Get(m, name).v ELSE FALSE
